@@ -3,12 +3,16 @@
    implementation's bytes with encoding/json and the model's document is diffed against it);
    import (export s) = s, hence the same parameters, the same answers now and after any further
    common history, and Equals (C17 reflexivity).
-   Proved: Count-Min, HyperLogLog, Top-K on elements that are valid UTF-8.
+   Proved: Count-Min, HyperLogLog, Top-K on elements that are valid UTF-8, Bloom (through the
+   bitset bit packing) and cuckoo (for every state satisfying the slot-count invariant).
    REFUTED: Top-K elements that are not valid UTF-8 come back with U+FFFD (known finding).
-   Bloom and cuckoo documents: tied by correspondence (documents, Equals and paired queries
-   after importing into dirty targets and after further common updates); not yet theorems. *)
+   Redis Count-Min: Export reads the represented matrix and Import under a new key gives a copy
+   representing the same sketch with the exporter untouched. The other Redis variants' documents
+   are tied by correspondence (documents, Equals and paired queries after importing under new
+   keys, exporter unchanged). *)
 From GX.Model Require Import Base CMS Bloom HLL Cuckoo Heap TopK Codec Persist.
-From GX.Proofs Require Import ListLemmas JsonProofs EqualsProofs.
+From GX.Model Require Import Redis RedisCMS.
+From GX.Proofs Require Import ListLemmas JsonProofs EqualsProofs CuckooInv BloomCodec DocProofs RedisCMSRefine.
 
 Theorem C10_cms_roundtrip : forall s key, imp_cms (doc_cms s key) = Ok s.
 Proof. exact cms_doc_roundtrip. Qed.
@@ -35,9 +39,40 @@ Theorem C10_imported_equals_original_cms : forall s key s',
   imp_cms (doc_cms s key) = Ok s' -> cms_equals_o s s' = Ok true.
 Proof. intros s key s' H. rewrite cms_doc_roundtrip in H. injection H as <-. exact (cms_equals_refl s). Qed.
 
+(* Bloom: the document carries the bitset image; importing it gives back the identical filter *)
+Theorem C10_bloom_roundtrip : forall f,
+  N.of_nat (length (b_bits f)) < two64 -> b_bsize f = N.of_nat (length (b_bits f)) ->
+  imp_bloom (doc_bloom f) = Ok f.
+Proof. exact bloom_doc_roundtrip. Qed.
+
+(* Cuckoo: for every state satisfying the slot-count invariant - i.e. every state reachable on
+   elements with a non-empty fingerprint (C13_length_accounting), with any holes left by removes
+   and any relocations - Export succeeds and Import gives back the identical filter: every
+   fingerprint in the slot it came from, every counter, Length and all parameters *)
+Theorem C10_cuckoo_roundtrip : forall f, ck_inv f ->
+  exists d, doc_cuckoo f = Ok d /\ imp_cuckoo d = Ok f.
+Proof. exact cuckoo_doc_roundtrip. Qed.
+
+(* Redis-backed Count-Min sketch: Export reads exactly the represented matrix, and importing it
+   under a new key (same length, different) gives a copy that represents the same in-memory
+   sketch while the exporter's rows are untouched - so, by the refinement (C08), the copy answers
+   every query as the exporter does, now and after common updates below 2^53 *)
+Theorem C10_redis_cms_export_is_matrix : forall rows cols s h m,
+  refines rows cols s h m -> rcms_matrix s h = c_matrix m.
+Proof. exact matrix_refines. Qed.
+
+Theorem C10_redis_cms_import_new_key : forall rows cols s h m key' allsum meta',
+  refines rows cols s h m -> length key' = length (rc_key h) -> key' <> rc_key h ->
+  let s' := rcms_set_matrix s key' (rcms_matrix s h) in
+  refines rows cols s' (mkRcms rows cols allsum key' meta') m /\ refines rows cols s' h m.
+Proof. exact import_new_key_refines. Qed.
+
 Print Assumptions C10_cms_roundtrip.
 Print Assumptions C10_hll_roundtrip.
 Print Assumptions C10_topk_roundtrip_utf8.
 Print Assumptions C10_ascii_is_utf8.
 Print Assumptions C10_topk_binary_element_refuted.
 Print Assumptions C10_imported_equals_original_cms.
+Print Assumptions C10_bloom_roundtrip.
+Print Assumptions C10_cuckoo_roundtrip.
+Print Assumptions C10_redis_cms_import_new_key.
